@@ -70,9 +70,18 @@ func (sr *Subroute) Provision(ctx caddy.Context) error {
 }
 
 func (sr *Subroute) ServeHTTP(w http.ResponseWriter, r *http.Request, next Handler) error {
-	subroute := sr.Routes.Compile(next)
+	// the rest of the chain is compiled into the subroute, but an error it
+	// returns is not an error of this subroute's routes: it must not be
+	// handled by this subroute's error routes (which would also run the
+	// rest of the chain a second time), so remember where it came from
+	var nextFailed bool
+	subroute := sr.Routes.Compile(HandlerFunc(func(w http.ResponseWriter, r *http.Request) error {
+		err := next.ServeHTTP(w, r)
+		nextFailed = err != nil
+		return err
+	}))
 	err := subroute.ServeHTTP(w, r)
-	if err != nil && sr.Errors != nil {
+	if err != nil && sr.Errors != nil && !nextFailed {
 		r = sr.Errors.WithError(r, err)
 		errRoute := sr.Errors.Routes.Compile(next)
 		return errRoute.ServeHTTP(w, r)
